@@ -102,8 +102,9 @@ def _c16():
     import charparser as ck
     import keywords as kw
     import literals as lk
-    return {"replay_fn": by_kernel({"keywords": kw.replay_fn, "literals": lk.replay_fn}), "replay_file_fn": by_kernel_file({"keywords": kw.replay_file, "literals": lk.replay_file}),
-            "builders": [ck.build, kw.build, lk.build], "level": "other", "explanation": "escape decoding"}
+    import floatlit as fk
+    return {"replay_fn": by_kernel({"keywords": kw.replay_fn, "literals": lk.replay_fn, "floatlit": fk.replay_fn}), "replay_file_fn": by_kernel_file({"keywords": kw.replay_file, "literals": lk.replay_file, "floatlit": fk.replay_file}),
+            "builders": [ck.build, kw.build, lk.build, fk.build], "level": "other", "explanation": "escape decoding"}
 
 
 def _c12():
